@@ -12,7 +12,7 @@ MC_PRates == {FOfNat(100)}
 MC_ARates == {FOfNat(200)}
 MC_FrameKinds == {"conf"}
 MC_ColKinds == {"ok1"}
-MC_Tags == 1..NTags
+MC_Tags == IF NTags = 0 THEN {0} ELSE 0..(NTags - 1)      \* 0 = automatic payload (distinct per data-set size and target)
 MC_UserParams == <<>>
 MC_LockNames == {}
 MC_CallerIds == 1..NCallers
